@@ -560,7 +560,7 @@ obl('C02.V-DISPATCH', FD + 'whole-trace postcondition', 'the calls one delivery 
 obl('C02.V-ONLY-THIS-SIGNAL', FD + 'no slot', 'no slot for `sig` in the snapshot: no action of any signal is called; nothing at all unless the fallback is for `sig`')
 obl('C04.V-PREV-FIRST-ONCE', FD + 'slot present', 'the first call of the delivery is the previous handler saved in that slot, for this signal number, and it is called once - also when the slot has no actions')
 obl('C04.V-FALLBACK', FD + 'slot absent', 'the race fallback is executed exactly once iff it is present and for this signal; never together with a slot')
-obl('C03.V-NO-PANIC', FD + 'verifier-generated checks', 'no verifier-generated check on a line of the real dispatcher fails (no unwrap of None, no index or arithmetic failure): the dispatcher cannot panic on any snapshot (the NULL-siginfo abort branch is excluded: rewrite R4)', also=['C02'])
+obl('C03.V-NO-PANIC', FD + 'verifier-generated checks', 'no verifier-generated check on a line of the real dispatcher fails: no unwrap of None, no index or arithmetic failure (the dispatcher cannot panic on any snapshot; the NULL-siginfo abort branch is excluded: rewrite R4), and no call of HalfLock::write (writer mutex + barrier wait; its contract carries `requires false` in this unit). Anything outside the declared call vocabulary (get, read, HashMap::get, BTreeMap::values, Option::as_ref, Prev::execute, a call of an action) does not compile => undecided, never a silent pass', also=['C02'])
 for _p in ('C02', 'C04', 'C03'):
     PROPS[_p]['units'] = PROPS[_p]['units'] + ['dispatcher_verus']
     PROPS[_p]['trusted'] = PROPS[_p]['trusted'] + ['Verus unit dispatcher_verus: assumed contracts (verus/dispatcher/prelude_h.rs, prelude_h2.rs): HalfLock::read returns a guard for SOME snapshot (validity while the guard lives is C01), GlobalData::get, ghost-trace contracts of Prev::execute (real body proved complete by Kani c04_prev_execute) and of a call of an action; vstd contracts of HashMap::get and BTreeMap::values (ascending key order); derived Ord of ActionId = numeric order; rewrites R1-R4 of the extraction (lib/verus_dispatcher.py), in particular the NULL-siginfo abort branch is not verified by this unit (Kani: c02_op_handler)']
